@@ -277,6 +277,27 @@ func TestVerifVSwitchConc(t *testing.T) {
 					pol := pols[lr.Intn(3)]
 					zone := zones[lr.Intn(2)]
 					ign := lr.Intn(2) == 0
+					if r%6 == 3 {
+						// 'most' storm on a cold cache with a slow cloud: every caller sorts its own candidate list while the
+						// others are in the middle of theirs (after one earlier 'most' selection on this pool)
+						if i == 0 && c == 1 {
+							w.Emit(vt.M{"ev": "invoke", "c": c, "op": "getone", "zone": "a", "ids": []string{"v4"}, "pol": "most", "ign": true})
+							res0, after0 := getOne(pool, f, "a", []string{"v4"}, "most", true)
+							w.Emit(vt.M{"ev": "return", "c": c, "op": "getone", "res": res0, "after": after0})
+						}
+						lists := [][]string{{"v1", "v2"}, {"v2", "v3"}, {"v3", "v1"}, {"v1"}, {"v2", "v3", "v1"}}
+						ids := append([]string{}, lists[(c+i+lr.Intn(2))%len(lists)]...)
+						orig := append([]string{}, ids...)
+						w.Emit(vt.M{"ev": "invoke", "c": c, "op": "getone", "zone": zone, "ids": orig, "pol": "most", "ign": true})
+						var res string
+						var after []string
+						p := vt.Catch(func() { res, after = getOne(pool, f, zone, ids, "most", true) })
+						if p != "" {
+							res, after = "panic", []string{}
+						}
+						w.Emit(vt.M{"ev": "return", "c": c, "op": "getone", "res": res, "after": after})
+						continue
+					}
 					if r%2 == 0 && pol != "most" {
 						// one shared slice passed by several goroutines; its expected content is fixed
 						w.Emit(vt.M{"ev": "invoke", "c": c, "op": "getone", "zone": zone, "ids": sharedCopy, "pol": pol, "ign": ign})
